@@ -275,11 +275,22 @@ def check_ghost_text(text, where):
 def check_top_text(text, where):
     """File-level ghost text: declarations of vg_ objects only (no function bodies)."""
     m = mask_c(text)
-    if '{' in m or '}' in m:
-        raise WeaveError("%s: @top text may not contain braces" % where)
-    for stmt in m.split(';'):
-        if stmt.strip() and 'vg_' not in stmt:
-            raise WeaveError("%s: @top declares a non-ghost name: %s" % (where, stmt.strip()))
+    if re.search(r'\)\s*\{', m):
+        raise WeaveError("%s: @top text may not contain function bodies" % where)
+    # split into top-level declarations (brace depth 0) and require a vg_ name in each
+    depth = 0
+    cur = ''
+    for ch in m:
+        if ch == '{':
+            depth += 1
+        elif ch == '}':
+            depth -= 1
+        if ch == ';' and depth == 0:
+            if cur.strip() and 'vg_' not in cur:
+                raise WeaveError("%s: @top declares a non-ghost name: %s" % (where, cur.strip()))
+            cur = ''
+        else:
+            cur += ch
 
 # ------------------------------------------------------------------ weaving --------------------
 
